@@ -328,6 +328,73 @@ def run_holey(sh, case):
     G.unload(mod)
 
 
+ALIAS_SRC = """
+from pymtl3 import *
+class AChild(Component):
+  def construct(s):
+    s.in_ = InPort(8); s.out = OutPort(8)
+    s.out //= s.in_
+class ATop(Component):
+  def construct(s, how, n):
+    s.in_ = InPort(8); s.out = OutPort(8); s.sum = OutPort(8)
+    s.a = Wire(8); s.b = Wire(8)
+    s.cs = [AChild() for _ in range(n)]
+    for c in s.cs: c.in_ //= s.in_
+    if how == "own-wires":          s.ws = [s.a, s.b]                       # a convenience list of wires declared before
+    elif how == "own-wires-nested": s.ws = [[s.b], [s.a]]
+    elif how == "child-ports":      s.outs = [c.out for c in s.cs]          # indexed access to the children's ports
+    elif how == "mixed":            s.ws = [Wire(8), s.a]
+    elif how == "control":          s.ws = [Wire(8), Wire(8)]
+    s.a //= s.in_
+    if how == "own-wires":          s.out //= s.ws[0]
+    elif how == "own-wires-nested": s.out //= s.ws[1][0]
+    elif how == "child-ports":      s.out //= s.outs[n - 1]
+    elif how == "mixed":            s.out //= s.ws[1]
+    else:                           s.ws[0] //= s.in_; s.out //= s.ws[0]
+    @update
+    def up_sum():
+      s.sum @= s.a + 1
+"""
+
+
+def run_alias_list(sh, case):
+  """a list field that gathers hardware objects which ALREADY have a name (own wires, ports of children): one object under two
+  names.  Either the construction is refused, or every name of a net member carries the writer's value in simulation and the
+  children keep their ports"""
+  rng = sh.rng("aliaslist", case)
+  how = rng.choice(["own-wires", "own-wires-nested", "child-ports", "mixed", "control"])
+  n = rng.randrange(1, 4)
+  mod = G.load_source(ALIAS_SRC, "c08alias")
+  try:
+    for mode in ("default", "mamba"):
+      top = mod.ATop(how, n)
+      try:
+        M.apply_mode(top, mode, rng)
+      except Exception as e:
+        sh.count("alias_list:" + how + ":refused")
+        if how == "control":
+          sh.violation("legal-design-with-a-list-of-fresh-wires-was-refused", {"mode": mode, "error": f"{type(e).__name__}: {str(e)[:200]}"}, case=("aliaslist", case))
+        return
+      sh.count("alias_list:" + how + ":simulated")
+      for _ in range(3):
+        x = rng.getrandbits(8); top.in_ @= x; top.sim_eval_combinational()
+        views = {"s.in_": int(top.in_), "s.a": int(top.a), "s.out": int(top.out), "s.sum - 1": (int(top.sum) - 1) & 255}
+        for i, c in enumerate(top.cs): views[f"s.cs[{i}].out"] = int(c.out)
+        if hasattr(top, "ws"):
+          flat = [w for e in top.ws for w in (e if isinstance(e, list) else [e])]
+          if how in ("own-wires", "own-wires-nested", "mixed"): views["s.a via the list"] = int([w for w in flat if w is top.a][0])
+        if hasattr(top, "outs"):
+          for i, o in enumerate(top.outs): views[f"s.outs[{i}]"] = int(o)
+        sh.count("alias_list_value_comparisons", len(views))
+        if any(v != x for v in views.values()):
+          sh.violation("net-member-differs-from-writer-in-simulation", {"how": how, "mode": mode, "input": x, "values_by_name": views, "design_source": ALIAS_SRC},
+                       case=("aliaslist", case)); return
+        top.sim_tick()
+    sh.count("alias_list_designs")
+  finally:
+    G.unload(mod)
+
+
 IFC_SWAP_SRC = """
 from pymtl3 import *
 def mkf(P, n):
@@ -451,6 +518,7 @@ def run_shard(sh):
     run_chain(sh, sh.idx * 1000 + case)
     run_ifc_swap(sh, sh.idx * 1000 + case)
     run_holey(sh, sh.idx * 1000 + case)
+    run_alias_list(sh, sh.idx * 1000 + case)
   for case in range(sh.params["designs"]):
     if sh.only is not None and str(case) != str(sh.only).strip('"'):
       continue
